@@ -85,6 +85,13 @@ CLAIMS['C04'] = dict(
     note=('Safety at step level only: the global invariant over histories (announced => no thread holds work) under the executors\' use, liveness, and the tree detector are NOT decided. '
           'Trusted: a call is one step on the caller\'s own holder (nobody else writes it while it holds the token); seq_cst atomic fields lowered to plain fields.'))
 
+CLAIMS['C11'] = dict(
+    text=('Proof for the CSR layout only: LC_CSR_Graph::raw_begin/raw_end/getDegree (per-node edge ranges from consecutive index entries; ordered, adjacent, 0..numEdges: lemma over the contracts) and the '
+          'callback constructor with all four loops closed by invariants: the index array is the prefix sum of the callback\'s edge counts and slot idx[p-1]+e holds exactly edgeDst(p,e)/edgeData(p,e) for an '
+          'arbitrary probe node p and edge e -- the graph presents the callback\'s out-edges in callback order, each written once.'),
+    note=('Narrow claim: every other layout, file-based construction, in-edges, transpose, sorting, binary-search lookup, NUMA options and local ranges are NOT decided. '
+          'Trusted: callbacks are deterministic functions; allocation dropped (arrays supplied); size bounds.'))
+
 NA = {
     'C01': 'schedule/worklist-policy property of deeply templated executors (histories of several threads); outside CBMC\'s C++ reach and not a per-call contract',
     'C07': 'relation between different executions (determinism across schedules/thread counts) of a ~1000-line template executor; no single-call contract expresses it',
